@@ -4,7 +4,7 @@
             vpl = 64/bits, mask = 2^bits-1, length >= 0, len(data) = ceil(length/vpl), longs < 2^64.
    abs st = unpack bits length data : the array the longs denote (value j = bits (j mod vpl)*b ..
             of long j / vpl), written with / and mod only. *)
-From Coq Require Import List NArith ZArith.
+From Coq Require Import List NArith ZArith Bool.
 From GoMC Require Import Base.Bytes Base.Dec Model.C05 Model.C11
   Proofs.C11 Proofs.C11_laws Proofs.C11_pack Proofs.C11_wire.
 Import ListNotations.
@@ -24,6 +24,17 @@ Theorem C11_get_set : forall st i v j, wf st ->
   (0 <= i < blen st)%Z -> (0 <= v < 2 ^ bits st)%Z -> (0 <= j < blen st)%Z ->
   snd (bs_get (fst (bs_set st i v)) j) = if (i =? j)%Z then ORet v else snd (bs_get st j).
 Proof. exact get_set. Qed.
+
+(* raw level: an accepted Set rewrites exactly the b bits of field i (bits off .. off+b-1 of long
+   i / vpl) and no other bit of any long - padding bits and the unused high bits included *)
+Theorem C11_set_raw_bits : forall st i v c j, wf st -> (0 <= i < blen st)%Z -> (0 <= v < 2 ^ bits st)%Z ->
+  let b := wbits st in
+  let ci := N.to_nat (Z.to_N i / spec_vpl b) in
+  let off := b * (Z.to_N i mod spec_vpl b) in
+  N.testbit (nth c (data (fst (bs_set st i v))) 0) j =
+  if (c =? ci)%nat && (off <=? j) && (j <? off + b)
+  then N.testbit (Z.to_N v) (j - off) else N.testbit (nth c (data st) 0) j.
+Proof. exact set_raw_bits. Qed.
 
 (* Swap = Set + the previous Get, for every storage and every argument *)
 Theorem C11_swap : forall st i v,
@@ -145,6 +156,7 @@ Proof. split; reflexivity. Qed.
 
 Print Assumptions C11_histories.
 Print Assumptions C11_get_set.
+Print Assumptions C11_set_raw_bits.
 Print Assumptions C11_swap.
 Print Assumptions C11_init_zero.
 Print Assumptions C11_init_raw.
